@@ -71,9 +71,9 @@ RULE = ("exhaustive: every pair (thorough: triple) of screens over 3 cell kinds 
         "multiline, wide prompts) during random editing sessions; a case is non-trivial when at least two renders "
         "draw different non-empty screens")
 EXHAUSTIVE = True
-EXHAUSTIVE_SCOPE = {"quick": "(W,H) in {(1,1),(2,1),(3,1),(1,2),(2,2)}, 3 cell kinds, all ordered pairs of screens, "
-                             "inline + full-screen",
-                    "thorough": "same pairs, all ordered triples for (1,1),(2,1),(3,1),(1,2), 12000 sampled pairs for (3,2)"}
+EXHAUSTIVE_SCOPE = {"quick": "(W,H) in {(1,1),(2,1),(3,1),(1,2)}: 3 cell kinds, all ordered pairs of screens, inline + "
+                             "full-screen; (2,2): all ordered pairs, inline",
+                    "thorough": "all ordered pairs for (1,1),(2,1),(3,1),(1,2),(2,2) in both modes, all ordered triples for (1,1),(2,1),(3,1),(1,2), 12000 sampled pairs for (3,2)"}
 TRUSTED = ["harness/c06.py: recording Output, VT100 interpreter (CR LF BS CUU/CUD/CUF/CUB CUP ED EL SGR DECTCEM "
            "DECAWM alt-screen, xterm wide-char overwrite rule), comparison code",
            "Ptk/Model/C06.lean: hand translation of renderer.py _output_screen_diff / Renderer state "
@@ -1402,7 +1402,7 @@ def small_screens(W, H):
     return out
 
 
-def small_cases(sizes, n, sample=None):
+def small_cases(sizes, n, sample=None, modes=(0, 1)):
     for (W, H) in sizes:
         scr = small_screens(W, H)
         idx = 0
@@ -1412,7 +1412,7 @@ def small_cases(sizes, n, sample=None):
         else:
             tuples = itertools.product(range(len(scr)), repeat=n)
         for tup in tuples:
-            for fs in (0, 1):
+            for fs in modes:
                 ops = []
                 for j, si in enumerate(tup):
                     base = scr[si]
@@ -1429,7 +1429,8 @@ def small_cases(sizes, n, sample=None):
 
 def cases(tier, rng):
     if tier == "quick":
-        yield from small_cases([(1, 1), (2, 1), (3, 1), (1, 2), (2, 2)], 2)
+        yield from small_cases([(1, 1), (2, 1), (3, 1), (1, 2)], 2)
+        yield from small_cases([(2, 2)], 2, modes=(0,))
         nrand, nfree, nres, nlay = 2500, 1200, 500, 120
     else:
         yield from small_cases([(1, 1), (2, 1), (3, 1), (1, 2), (2, 2)], 2)
